@@ -15,6 +15,7 @@ from __future__ import annotations
 import json
 import os
 import shutil
+import signal
 import subprocess
 import sys
 import tempfile
@@ -71,22 +72,42 @@ def canon_obs(obs, root: str):
     return obs
 
 
-def run_impl(case, repo: str, timeout=60):
-    """-> observation dict, or {'crash': ...} when the child did not print an observation."""
-    root = tempfile.mkdtemp(prefix='c20-')
+def run_impl(case, repo: str, timeout=40):
+    """-> {'steps': [...]} (one observation per import / new / init step of the history; a case without a
+    'script' is the one-step history `init()` on the module singleton), or {'hang': ...} when the child
+    did not finish within `timeout` (killed with everything it started), or {'crash': ...} when it did
+    not print an observation."""
+    root = os.path.realpath(tempfile.mkdtemp(prefix='c20-'))
     try:
         materialise(case, root)
-        p = subprocess.run([sys.executable, str(CHILD)], cwd=os.path.join(root, 'cwd'),
-                           env=child_env(case, root, repo), stdout=subprocess.PIPE, stderr=subprocess.PIPE,
-                           text=True, timeout=timeout)
-        lines = [ln for ln in p.stdout.splitlines() if ln.startswith('{')]
-        if p.returncode != 0 or not lines:
-            return {'crash': {'rc': p.returncode, 'stderr': canon_path(p.stderr[-1500:], root)}}
-        obs = json.loads(lines[-1])
+        env = child_env(case, root, repo)
+        env['C20_ROOT'] = root
+        if case.get('script') is not None:
+            sp = os.path.join(root, 'script.json')
+            with open(sp, 'w') as f:
+                json.dump([{k: ({n: real(v, root) for n, v in x.items()} if k == 'env' else x)
+                            for k, x in op.items() if k != 'spec'} for op in case['script']], f)
+            env['C20_SCRIPT'] = sp
+        proc = subprocess.Popen([sys.executable, str(CHILD)], cwd=os.path.join(root, 'cwd'), env=env,
+                                stdout=subprocess.PIPE, stderr=subprocess.PIPE, text=True, start_new_session=True)
+        try:
+            out, err = proc.communicate(timeout=timeout)
+        except subprocess.TimeoutExpired:
+            try:
+                os.killpg(proc.pid, signal.SIGKILL)
+            except ProcessLookupError:
+                pass
+            proc.communicate()
+            return {'hang': {'after_s': timeout}}
+        lines = [ln for ln in out.splitlines() if ln.startswith('{')]
+        if proc.returncode != 0 or not lines:
+            return {'crash': {'rc': proc.returncode, 'stderr': canon_path(err[-1500:], root),
+                              'in_tree_under_test': repo in err}}
+        obs = json.loads(canon_path(lines[-1], root))
         if not str(obs.get('pypyr_file', '')).startswith(repo):
             return {'crash': {'rc': 0, 'stderr': f"child imported pypyr from {obs.get('pypyr_file')}, not {repo}"}}
         obs.pop('pypyr_file', None)
-        return canon_obs(obs, root)
+        return obs
     finally:
         shutil.rmtree(root, ignore_errors=True)
 
